@@ -23,6 +23,7 @@ package dig
 import (
 	"fmt"
 	"reflect"
+	"strings"
 
 	"go.uber.org/dig/internal/digerror"
 	"go.uber.org/dig/internal/dot"
@@ -449,6 +450,12 @@ func newResultObjectField(idx int, f reflect.StructField, opts resultOptions) (r
 	default:
 		var err error
 		if name := f.Tag.Get(_nameTag); len(name) > 0 {
+			// Same restriction as for dig.Name: a name:".." tag and
+			// the option must accept the same names.
+			if strings.ContainsRune(name, '`') {
+				return rof, newErrInvalidInput(
+					fmt.Sprintf("invalid name:%q: names cannot contain backquotes", name), nil)
+			}
 			// can modify in-place because options are passed-by-value.
 			opts.Name = name
 		}
@@ -514,6 +521,10 @@ func newResultGrouped(f reflect.StructField) (resultGrouped, error) {
 	name := f.Tag.Get(_nameTag)
 	optional, _ := isFieldOptional(f)
 	switch {
+	case strings.ContainsRune(g.Name, '`'):
+		// Same restriction as for dig.Group.
+		return rg, newErrInvalidInput(fmt.Sprintf(
+			"invalid group:%q: group names cannot contain backquotes", g.Name), nil)
 	case g.Flatten && f.Type.Kind() != reflect.Slice:
 		return rg, newErrInvalidInput(fmt.Sprintf(
 			"flatten can be applied to slices only: field %q (%v) is not a slice", f.Name, f.Type), nil)
